@@ -75,6 +75,15 @@ def sample_data(rng, w, m, v, N, tail=None):
     return x
 
 
+def maybe_int(rng, x, p=0.12):
+    """with probability p (and only if the data are spread over several units) hand the samples over as an integer-typed
+    array of the rounded values: a legal input form; the model sees the same values as floats"""
+    x = np.asarray(x)
+    if rng.random() < p and x.size and float(np.min(np.std(x, axis=0))) > 2.0:
+        return np.rint(x).astype(np.int64)
+    return x
+
+
 def compositions(n):
     """All 2^(n-1) compositions of n rows into consecutive non-empty blocks."""
     out = []
